@@ -39,6 +39,11 @@
 // that references a feature twice is demanded exactly once, for every feature it
 // references, before and after the repeat.
 //
+// Cycles per referrer kind: the menu's cycles all pass through a relation (it
+// has one collection slot); cycles.go adds every cycle of length 1-3 over
+// relation and collection nodes (collections only and mixed included) as a
+// family of its own, see there.
+//
 // Because a stack overflow kills the whole case, histories whose states are all
 // acyclic (family A: exhaustive bulk) are kept apart from the histories that
 // visit a cyclic state (family C: one case per start state and world kind, so a
@@ -497,7 +502,7 @@ func classify(kind, section, got, want string, former []wk.Dump, droppedBase, cy
 	if strings.HasPrefix(sec, "refs-") {
 		sec = "refs-typed"
 	}
-	if kind == "compact" {
+	if strings.HasPrefix(kind, "compact") {
 		sec = "any-query" // its FindReferences is assembled from the other three queries
 	}
 	if strings.Contains(got, "PANIC(") {
@@ -1053,6 +1058,15 @@ type caseDef struct {
 	st   state
 	hc   *histCfg
 	m    []slot // nil = menu()
+	cyc  *cycCase
+}
+
+// cycCase: a case of the reference-cycle family (cycles.go).
+type cycCase struct {
+	g          cycGraph
+	kind       string // "basic" | "compact" (static) | kindMutable | kindOverlay (histories)
+	extraDepth int
+	allSplits  bool
 }
 
 const (
@@ -1459,6 +1473,41 @@ func build(tier string) (kit.Space, string) {
 		}
 	}
 
+	// 6. reference-cycle family (cycles.go): cycles of length 1-3 per referrer kind
+	{
+		graphs := cycGraphs()
+		nrs := 2
+		extraDepth := 1
+		if thorough {
+			nrs = 3
+			extraDepth = 2
+		}
+		nb, nc := 0, 0
+		for si := 0; si < nrs; si++ {
+			for i := range graphs {
+				cases = append(cases, caseDef{sch: uint8(si), cyc: &cycCase{g: graphs[i], kind: "basic"}})
+				nb++
+			}
+			for i := range graphs {
+				// the compact format stores no collections
+				if g := graphs[i]; g.composition() == "cycle-of-relations" && g.top != 2 {
+					cases = append(cases, caseDef{sch: uint8(si), cyc: &cycCase{g: g, kind: "compact"}})
+					nc++
+				}
+			}
+		}
+		for i := range graphs {
+			for _, kind := range []string{kindMutable, kindOverlay} {
+				cases = append(cases, caseDef{cyc: &cycCase{g: graphs[i], kind: kind, extraDepth: extraDepth, allSplits: thorough}})
+			}
+		}
+		splits := "the splits with everything, only the last referrer, or nothing in the overlay"
+		if thorough {
+			splits = "every split"
+		}
+		bound = append(bound, fmt.Sprintf("reference-cycle family: %d graphs = every cycle of length 1-3 over {relation, collection} nodes (14 kind sequences: relations only, collections only, mixed) x {point, closed path, area} below the first node x {nothing, relation, collection} above it; static basic over all of them and static compact over the %d without a collection under each of %d schemes; histories under scheme osm x {mutable, overlay}: the referrers (<= 4) added in every order, for the overlay under every split of the order between base and overlay, queried after every step, then every sequence of <= %d further edits of the closed cycle (re-add / open / re-close a node, re-add the feature above, the hanging feature, the bottom point, 3 tag edits; 8-13 edits) under %s", len(graphs), nc/nrs, nrs, extraDepth, splits))
+	}
+
 	lastCases = cases
 	return kit.FuncSpace{N: int64(len(cases)), F: func(i int64) kit.Result {
 		var r kit.Result
@@ -1466,6 +1515,17 @@ func build(tier string) (kit.Space, string) {
 		m := m
 		if c.m != nil {
 			m = c.m
+		}
+		if c.cyc != nil {
+			if c.cyc.kind == "basic" || c.cyc.kind == "compact" {
+				runCycleStatic(&r, c.cyc.g, wk.Schemes[c.sch], c.cyc.kind)
+			} else {
+				runCycleHistories(&r, c.cyc.g, wk.Schemes[c.sch], c.cyc.kind, c.cyc.extraDepth, c.cyc.allSplits)
+			}
+			if i%97 == 0 {
+				r.Sample = map[string]interface{}{"case": "cycle-family:" + c.cyc.kind, "graph": c.cyc.g.String(), "referrers": c.cyc.g.referrers(wk.Schemes[c.sch]).String()}
+			}
+			return r
 		}
 		switch c.what {
 		case cStaticBasic:
@@ -1492,6 +1552,7 @@ func main() {
 		Rule: "state = one variant per slot of the reference-graph menu (P0 plain/tagged; paths W0, W1 through or past P0, closed or open; area A0 on W0, W1 or both; relations R0, R1 with point/path/area/relation/collection members incl. self-membership, mutual membership, duplicate members; collection C0 keyed by point/relation/area/itself), only states valid as given. " +
 			"Static cases build the state; history cases start from the state (added feature by feature to BasicMutableWorld, or as the static basic base of a MutableOverlayWorld) and apply every sequence of AddFeature(variant) operations up to the depth whose every intermediate state is valid (adds and replacements, incl. replacement by a version that no longer refers and by an identical version); the tag-edit family interleaves them with AddTag (searchable '#x' / plain 'note') and RemoveTag (the key the variant carries) on the point, a path, the area and a relation, which leave the model's referrers unchanged. " +
 			"The repeated-reference menu fills the same slots on six points with referrers that reference a feature more than once: path W0 open / revisiting p1 then on to p3 / closed / figure of eight through p1 then on to p4 / out-and-back ending on the repeat / two revisits / passing p0 three times; path W1 closed / revisiting p2 then on to p4 / open; area A0 by w0|w1 / w0|w0|w1 / w0|w0 / w0|w1|w0 / w0; relation R0 [p0,p1,p2] / [p0,p1,p0,p2] / [p0,p0,p2] same role / [w0,w0,p3] same role / [p1,p0,p0] / [w0,w1,w0,a0] / [p0,p0,p0,p1] same role / [p2,p2,w1]; relation R1 [r0,r0,p3] / [p0,r0] / [a0,a0,w1] / [r0,p4,r0,p5] same role; collection C0 {p0,p1} / {p0,p0,p1} / {r0,w0,r0,a0} / {p1,p0,p0} (no reference cycles; small menu = the leading 2/5/3/3/5/3/3 variants incl. absent); its valid states are built statically and used as start states of histories over AddFeature(variant of the repeat menu) + the same 12 tag edits, so that referrers are added with a repeat, replaced by versions with / without the repeat or with the repeat elsewhere, and copied between base and overlay by tag edits and point replacements. " +
+			"The reference-cycle family (cycles.go) takes every directed cycle of length 1, 2, 3 whose nodes are each a relation or a collection (relations only, collections only, mixed), the first node also referencing a point, a closed path or an area on it that hangs below the cycle, with nothing, a relation or a collection above the first node; the graph is built statically (basic; compact only for cycles of relations, since the compact format stores no collections) and through histories on both mutable worlds: the referrers added in every order (each node once the member that closes the cycle), for the overlay under every split of that order between base and overlay, all queries after every step, then every bounded sequence of further edits of the closed cycle (re-add a node unchanged, replace it by a version without its edge to the next node, re-close, re-add the feature above / the hanging feature / the bottom point, AddTag searchable and plain on the hanging feature and searchable on the first node); one case per graph and world kind, so that a runaway recursion costs that case only. " +
 			"After each sequence every reference query (FindReferences untyped / per type / path+relation, FindRelationsByFeature, FindCollectionsByFeature, FindAreasByPoint) on 11 (repeat menu: 14, all six points) present and absent IDs is compared with worldkit Ref.Referrers of the model state (a set: each referrer once however often it references the feature); non-trivial = some queried feature has a referrer.",
 		Assumptions: []string{
 			"compact world checked against the chains its own queries define (relations by direct membership, paths of a point, areas of a point through its paths; no collections) — narrower than the transitive closure of the in-memory worlds; the sections where the two definitions differ are counted, not alarmed",
